@@ -210,6 +210,7 @@ func (t *fnTrans) val(v ssa.Value) string {
 			}
 			t.fnFact[n] = true
 			t.c.axiom("(not (= " + d + " 0))") // a function value is never nil
+			t.c.axiom("(= (fnid " + d + ") " + nameTag("fn:"+t.g.fnKey(v)) + ")")
 		}
 		return d
 	case *ssa.Builtin:
@@ -908,6 +909,8 @@ func (t *fnTrans) instr(in ssa.Instruction) {
 		r := t.newRef(in.Name())
 		t.vals[in] = []string{r}
 		t.closures[in] = in
+		// identity of the code behind the function value (fn_is)
+		t.assume("(= (fnid " + r + ") " + nameTag("fn:"+t.g.fnKey(in.Fn.(*ssa.Function))) + ")")
 	case *ssa.Range:
 		t.rangeInstr(in)
 	case *ssa.Next:
@@ -1956,4 +1959,15 @@ func (t *fnTrans) ifSite(in *ssa.If) {
 		}
 	}
 	t.cur = t.h.child(t.cur)
+}
+
+// knownFnKey: key names a function of the module (or the bound-method wrapper of one).
+func (g *Gen) knownFnKey(k string) bool {
+	k = strings.TrimSuffix(k, "$bound")
+	for _, f := range g.allFuncs {
+		if g.fnKey(f) == k {
+			return true
+		}
+	}
+	return false
 }
